@@ -44,4 +44,5 @@ LEVEL_TEXT = ("Proof (all three T1 theorems at history level; the T2 variant und
               "while a Release is being written). Found and repaired: F19, F20, F22.")
 LEVEL_NOTE = ("import_release is a per-import-id balance (a re-import that finds the entry of a client whose Shutdown is postponed takes "
               "the entry over with its wireRefs, as import.go does); the statements are for cfg_fixed and histories within the "
-              "id bound and the environment assumption env_ok. See coq/Props/Properties_C07.v.")
+              "id bound and the environment assumption env_ok. C07_generation_fresh has the premise 'every entry\'s generation is at most the "
+              "counter' (true initially, preserved by addImport; not threaded through histories as an invariant). See coq/Props/Properties_C07.v.")
